@@ -35,6 +35,8 @@ type Ctx struct {
 	usedUniqueErr map[string]bool
 	contractErrors []string
 	errGlobals map[*ssa.Global]bool
+	constInit  map[*ssa.Global]map[int]*ssa.Const // immutable struct globals: field index -> constant stored by init (-1 = whole scalar)
+	stableArr  map[string]bool                     // heap arrays of fields declared stable (written only by their constructors)
 	allFuncs map[*ssa.Function]bool
 }
 
@@ -65,7 +67,7 @@ func loadCtx(repo, contracts string) (*Ctx, error) {
 	prog.Build()
 	c := &Ctx{prog: prog, pkg: spkgs[0], tpkg: pkgs[0].Types, fset: pkgs[0].Fset, files: pkgs[0].Syntax, ppkg: pkgs[0],
 		funcs: map[string]*ssa.Function{}, tags: map[string]int{}, tagTypes: map[int]types.Type{}, usedIfaces: map[string]*types.Interface{},
-		globals: map[string]int{}, immutableGlobals: map[*ssa.Global]bool{}, uniqueAllocGlobals: map[*ssa.Global]bool{}, usedUnique: map[string]bool{}, usedUniqueErr: map[string]bool{}, errGlobals: map[*ssa.Global]bool{}}
+		globals: map[string]int{}, immutableGlobals: map[*ssa.Global]bool{}, uniqueAllocGlobals: map[*ssa.Global]bool{}, usedUnique: map[string]bool{}, usedUniqueErr: map[string]bool{}, errGlobals: map[*ssa.Global]bool{}, constInit: map[*ssa.Global]map[int]*ssa.Const{}, stableArr: map[string]bool{}}
 	c.allFuncs = ssautil.AllFunctions(prog)
 	for f := range c.allFuncs {
 		if f.Pkg == c.pkg || (f.Pkg == nil && (recvInPkg(f, c.tpkg) || (f.Parent() != nil && f.Parent().Pkg == c.pkg))) {
@@ -101,6 +103,13 @@ func loadCtx(repo, contracts string) (*Ctx, error) {
 		return nil, err
 	}
 	c.cf = cf
+	for _, ti := range cf.TypeInvs {
+		if ti.Stable {
+			for _, f := range ti.Fields {
+				c.stableArr["H."+ti.Type+"."+f] = true
+			}
+		}
+	}
 	return c, nil
 }
 
@@ -115,7 +124,33 @@ func (c *Ctx) scanGlobals() {
 		for _, b := range f.Blocks {
 			for _, in := range b.Instrs {
 				if st, ok := in.(*ssa.Store); ok {
+					if fa, ok := st.Addr.(*ssa.FieldAddr); ok && isInit {
+						if g, ok := fa.X.(*ssa.Global); ok && f.Pkg == g.Pkg {
+							if cv, isC := st.Val.(*ssa.Const); isC {
+								if c.constInit[g] == nil {
+									c.constInit[g] = map[int]*ssa.Const{}
+								}
+								if _, dup := c.constInit[g][fa.Field]; dup {
+									c.constInit[g][fa.Field] = nil
+								} else {
+									c.constInit[g][fa.Field] = cv
+								}
+							} else {
+								if c.constInit[g] == nil {
+									c.constInit[g] = map[int]*ssa.Const{}
+								}
+								c.constInit[g][fa.Field] = nil
+							}
+						}
+					}
 					if g, ok := st.Addr.(*ssa.Global); ok {
+						if cv, isC := st.Val.(*ssa.Const); isC && isInit && f.Pkg == g.Pkg {
+							if c.constInit[g] == nil {
+								c.constInit[g] = map[int]*ssa.Const{-1: cv}
+							} else {
+								c.constInit[g][-1] = nil
+							}
+						}
 						if !isInit || f.Pkg != g.Pkg {
 							mutable[g] = true
 						} else {
@@ -139,6 +174,22 @@ func (c *Ctx) scanGlobals() {
 					}
 					if g, ok := (*op).(*ssa.Global); ok {
 						switch x := in.(type) {
+						case *ssa.FieldAddr:
+							if isInit && f.Pkg == g.Pkg {
+								onlyStores := true
+								for _, r := range *x.Referrers() {
+									if st, ok := r.(*ssa.Store); !ok || st.Addr != x {
+										if _, isDbg := r.(*ssa.DebugRef); !isDbg {
+											onlyStores = false
+										}
+									}
+								}
+								if onlyStores {
+									continue
+								}
+							}
+						case *ssa.DebugRef:
+							continue
 						case *ssa.UnOp:
 							if x.Op == token.MUL {
 								continue
@@ -171,7 +222,7 @@ func (c *Ctx) newVC(fn *ssa.Function, fc *FuncContract) *VC {
 		fc = &FuncContract{Name: fn.RelString(c.tpkg)}
 	}
 	return &VC{ctx: c, fn: fn, fc: fc, declSet: map[string]bool{}, arrSort: map[string]string{}, snipCnt: map[string]int{},
-		abstracted: map[string]int{}, strlits: map[string]string{}, calledContracts: map[string]int{}, externals: map[string]int{}}
+		abstracted: map[string]int{}, strlits: map[string]string{}, calledContracts: map[string]int{}, externals: map[string]int{}, usedTypeInvs: map[string]bool{}}
 }
 
 // verifyFunc builds the VC of fn for property prop and returns it.
